@@ -6,10 +6,10 @@ RULE = ("family of 34 function-pointer types around `fn(i32, &u8) -> i64`, each 
         "parameter and in the return, unit return, unsafe, extern \"C\", unsafe extern \"C\", unsafe extern \"system\", and three pairs of types whose names differ only in the module path: ma::Rs / mb::Rs as return, &ma::Cfg / &mb::Cfg as parameter, std::fmt::Result / std::io::Result<()>; Qty<'m'> / Qty<'s'> (char const-generic arguments are spelled with apostrophes, like lifetimes); two 40-element tuple types of > 400 bytes of name that differ only in the middle) plus two lifetime "
         "re-spellings; EVERY ordered pair (target type i, replacement type j) through every macro form carrying a type (func! long form, "
         "func!(fn (f)(..) -> r), func!(func_info: ..), unsafe{}/extern forms, closure!, fake! with and without times), plus null target / "
-        "null replacement / typed+unchecked mixes per member, plus 20 async output-type pairs and 7 hand-written poll functions given to the checked async installer (only `fn() -> Poll<T>` with the right T fits; extra parameter, &mut parameter, unsafe, extern \"C\", other T, closure are refused). After a well-typed pairing of two functions has been accepted, the same two addresses are presented again with other declared types (replacement / target declared unsafe, replacement / target untyped), twice each: still refused, and the well-typed pairing still accepted afterwards. Structural equality is known by "
+        "null replacement / typed+unchecked mixes per member, plus an identically typed C-variadic pair (accepted) and a variadic/non-variadic pair (refused), 20 async output-type pairs and 7 hand-written poll functions given to the checked async installer (only `fn() -> Poll<T>` with the right T fits; extra parameter, &mut parameter, unsafe, extern \"C\", other T, closure are refused). After a well-typed pairing of two functions has been accepted, the same two addresses are presented again with other declared types (replacement / target declared unsafe, replacement / target untyped), twice each: still refused, and the well-typed pairing still accepted afterwards. Structural equality is known by "
         "construction. Oracle: accepted iff same class; a refusal is a 'Signature mismatch' or null-pointer panic, raised before any "
         "library mprotect / flush / executable mmap, with the target bytes unchanged. Lifetime-only pairs are run and reported, not judged. "
-        "Additionally every arm of fake! (parsed from the source, one generated program per arm) is installed on a target declared with "
+        "Three little programs built against the tree check the async macros' type argument: the function's own output type is accepted; another type in BOTH async_func! and async_return! must be refused somewhere (today at compile time: not compiling counts as refused; compiling and installing is a violation). Additionally every arm of fake! (parsed from the source, one generated program per arm) is installed on a target declared with "
         "exactly the type written in func_type: it must be accepted. distinct = (form pair, class i, class j) + fake! arms")
 
 
@@ -26,10 +26,96 @@ def run(tier, seed):
     r.observe("native", obs)
     r.observe("lifetime_spelling_pairs_not_judged", sorted(set(map(str, lt if isinstance(lt, list) else [lt])))[:40])
     arms_part(r)
+    neg_part(r)
     r.exhaustive = True
     r.assumptions = ["the family is fixed (seed-independent): the check is exhaustive over family x family x macro forms, a sample of the space of all Rust function types",
                      "a wrongly accepted pair is never called"]
     return r.finish({"scenario": "c09"})
+
+
+NEG_PROGRAMS = {
+    # (file name) -> (source, what it is, must_compile)
+    "async_right_type": ("""use injectorpp::interface::injector::*;
+async fn real() -> u64 { 5 }
+fn main() {
+    let r = std::panic::catch_unwind(|| {
+        let mut inj = InjectorPP::new();
+        inj.when_called_async(injectorpp::async_func!(real(), u64)).will_return_async(injectorpp::async_return!(7, u64));
+    });
+    println!("{}", if r.is_err() { "REFUSED-AT-RUNTIME" } else { "ACCEPTED" });
+}
+""", "control: the function's own output type in both macros", True),
+    "async_wrong_type_in_both": ("""use injectorpp::interface::injector::*;
+async fn real() -> u64 { 5 }
+fn main() {
+    let r = std::panic::catch_unwind(|| {
+        let mut inj = InjectorPP::new();
+        inj.when_called_async(injectorpp::async_func!(real(), u32)).will_return_async(injectorpp::async_return!(7, u32));
+    });
+    println!("{}", if r.is_err() { "REFUSED-AT-RUNTIME" } else { "ACCEPTED" });
+}
+""", "async fn returns u64; async_func! and async_return! both say u32", False),
+    "async_wrong_type_heap": ("""use injectorpp::interface::injector::*;
+async fn real() -> String { String::new() }
+fn main() {
+    let r = std::panic::catch_unwind(|| {
+        let mut inj = InjectorPP::new();
+        inj.when_called_async(injectorpp::async_func!(real(), u8)).will_return_async(injectorpp::async_return!(7, u8));
+    });
+    println!("{}", if r.is_err() { "REFUSED-AT-RUNTIME" } else { "ACCEPTED" });
+}
+""", "async fn returns String; both macros say u8", False),
+}
+
+
+def neg_part(r):
+    """Pairings that must be refused *somewhere*: today the compiler refuses them (the macro asserts the future's
+    output type). Each is a little program built against the tree under test: not compiling = refused at compile
+    time; compiling and panicking in the installer = refused at run time; compiling and installing = violation."""
+    import os, subprocess, shutil
+    proj = os.path.join(core.BUILD, "c09-neg")
+    os.makedirs(os.path.join(proj, "src", "bin"), exist_ok=True)
+    open(os.path.join(proj, "Cargo.toml"), "w").write('[package]\nname = "c09neg"\nversion = "0.0.0"\nedition = "2021"\npublish = false\n[dependencies]\ninjectorpp = { path = "%s" }\n[workspace]\n' % core.REPO)
+    lock = os.path.join(core.REPO, "Cargo.lock")
+    if os.path.exists(lock):
+        shutil.copy(lock, os.path.join(proj, "Cargo.lock"))
+    for f in os.listdir(os.path.join(proj, "src", "bin")):
+        os.remove(os.path.join(proj, "src", "bin", f))
+    for name, (src, _, _) in NEG_PROGRAMS.items():
+        open(os.path.join(proj, "src", "bin", name + ".rs"), "w").write(src)
+    tdir = os.path.join(core.BUILD, "c09-neg-target")
+    for name in NEG_PROGRAMS:
+        exe = os.path.join(tdir, "debug", name)
+        if os.path.exists(exe):
+            os.remove(exe)
+    rc, out = core.sh(["cargo", "build", "--offline", "--quiet", "--bins", "--keep-going"], cwd=proj, env=core.env_offline({"CARGO_TARGET_DIR": tdir}), timeout=900)
+    results = {}
+    for name, (_, what, must) in NEG_PROGRAMS.items():
+        exe = os.path.join(tdir, "debug", name)
+        if not os.path.exists(exe):
+            results[name] = "does-not-compile"
+        else:
+            try:
+                p = subprocess.run([exe], stdout=subprocess.PIPE, stderr=subprocess.PIPE, text=True, timeout=60)
+                results[name] = "accepted" if "ACCEPTED" in p.stdout else ("refused-at-run-time" if "REFUSED-AT-RUNTIME" in p.stdout else "crashed:%s" % core.signame(p.returncode))
+            except subprocess.TimeoutExpired:
+                results[name] = "watchdog"
+    r.observe("pairings_that_must_be_refused_somewhere", results)
+    if results.get("async_right_type") != "accepted":
+        # the control does not behave: the little project is not telling us anything
+        r.add_case("neg", -21, "must-be-refused/control", "inconclusive", "control-program-not-accepted", {"results": results, "cargo": out[-400:]})
+        return
+    r.add_case("neg", -21, "must-be-refused/control", "held", "", {"control": "accepted"})
+    for k, name in enumerate(n for n in NEG_PROGRAMS if n != "async_right_type"):
+        res = results[name]
+        cls = "must-be-refused/" + name
+        d = {"what": NEG_PROGRAMS[name][1], "outcome": res}
+        if res in ("does-not-compile", "refused-at-run-time"):
+            r.add_case("neg", -22 - k, cls, "held", "", d)
+        elif res == "accepted":
+            r.add_case("neg", -22 - k, cls, "violated", "structurally-different-signature-accepted:async-output-type-not-the-functions-own", d)
+        else:
+            r.add_case("neg", -22 - k, cls, "inconclusive", "program-ended-unexpectedly", d)
 
 
 def arms_part(r):
